@@ -29,6 +29,10 @@ enum Reply {
 
 #[derive(Default)]
 struct MockState {
+    /// discovery requests are numbered as they arrive and each waits until its own answer is provided
+    held: bool,
+    arrived: usize,
+    answers: HashMap<usize, Vec<proto::Target>>,
     discovery_reply: Vec<proto::Target>,
     select_reply: Option<Reply>,
     last_select: Option<proto::SelectRequest>,
@@ -40,6 +44,23 @@ struct Mock(Arc<Mutex<MockState>>);
 #[tonic::async_trait]
 impl Discovery for Mock {
     async fn get_targets(&self, _r: tonic::Request<proto::TargetRequest>) -> Result<tonic::Response<proto::TargetsResponse>, tonic::Status> {
+        let held = {
+            let mut st = self.0.lock().unwrap();
+            if st.held {
+                st.arrived += 1;
+                Some(st.arrived - 1)
+            } else {
+                None
+            }
+        };
+        if let Some(n) = held {
+            loop {
+                if let Some(targets) = self.0.lock().unwrap().answers.remove(&n) {
+                    return Ok(tonic::Response::new(proto::TargetsResponse { targets }));
+                }
+                tokio::time::sleep(std::time::Duration::from_millis(2)).await;
+            }
+        }
         Ok(tonic::Response::new(proto::TargetsResponse { targets: self.0.lock().unwrap().discovery_reply.clone() }))
     }
 }
@@ -311,6 +332,146 @@ async fn check_select(cx: &Ctx, peer: &Peer, cands: &[Target], reply: Reply, cli
     }
 }
 
+
+/// Two (three) discover() calls in flight on one adapter instance, answered in every order, each with its own
+/// list: every call returns exactly the list that was the answer to its own request.
+async fn check_overlapping_discovery(cx: &Ctx) {
+    let t = |id: &str, host: &str, port: u32| WireTarget { id: id.into(), host: Some(host.into()), port, meta: vec![("list".into(), id.into())] };
+    let lists: Vec<Vec<WireTarget>> = vec![vec![t("lobby-1", "10.0.0.1", 25565), t("lobby-2", "2001:db8::2", 25566)], vec![t("lobby-3", "10.0.0.3", 25567)], vec![]];
+    for order in [vec![0usize, 1], vec![1, 0], vec![0, 1, 2], vec![2, 1, 0], vec![1, 2, 0], vec![2, 0, 1], vec![1, 0, 2], vec![0, 2, 1]] {
+        let peer = std::sync::Arc::new(start_peer().await);
+        peer.state.lock().unwrap().held = true;
+        let n = order.len();
+        let mut calls = vec![];
+        for k in 0..n {
+            let p = peer.clone();
+            calls.push(tokio::task::spawn_local(async move { p.disc.discover().await }));
+            // the k-th request has reached the service before the next call starts
+            let t0 = std::time::Instant::now();
+            while peer.state.lock().unwrap().arrived <= k {
+                if t0.elapsed() > std::time::Duration::from_secs(3) {
+                    break;
+                }
+                tokio::time::sleep(std::time::Duration::from_millis(2)).await;
+            }
+        }
+        cx.rpcs.fetch_add(n as u64, Ordering::Relaxed);
+        let arrived = peer.state.lock().unwrap().arrived;
+        let replay = json!({"direction": "overlapping-discovery", "answered_in_order": order});
+        if arrived != n {
+            // fewer requests than calls: some call did not ask the service at all
+            bad(cx, "overlapping-discovery:call-without-request".into(), format!("{n} discover() calls are in flight, the service has seen {arrived} requests"), replay.clone(), 3);
+        }
+        for k in &order {
+            peer.state.lock().unwrap().answers.insert(*k, lists[*k].iter().map(to_proto).collect());
+            tokio::time::sleep(std::time::Duration::from_millis(15)).await;
+        }
+        for (k, call) in calls.into_iter().enumerate() {
+            let got = match tokio::time::timeout(std::time::Duration::from_secs(3), call).await {
+                Ok(Ok(Ok(ts))) => ts,
+                other => {
+                    bad(cx, "overlapping-discovery:call-failed".into(), format!("call #{k}: {other:?}"), replay.clone(), 3);
+                    continue;
+                }
+            };
+            let seen: Vec<(String, String)> = got.iter().map(|t| (t.identifier.clone(), t.address.to_string())).collect();
+            let want: Vec<(String, String)> = lists[k].iter().map(|t| (t.id.clone(), SocketAddr::new(t.host.clone().unwrap().parse().unwrap(), t.port as u16).to_string())).collect();
+            if seen != want {
+                bad(cx, "overlapping-discovery:answer-of-another-request".into(), format!("{n} discover() calls in flight on one adapter, answered in the order {order:?}: call #{k} was answered with {want:?} and returned {seen:?}"), replay.clone(), 3);
+            } else {
+                cx.ok_targets.fetch_add(got.len() as u64, Ordering::Relaxed);
+            }
+        }
+    }
+}
+
+/// Whole connections through the real Listener (PROXY protocol on) whose discovery and strategy are the gRPC
+/// adapters: the service is sent the player's announced source address, the handshake's server address and the
+/// discovered candidates unaltered, and the player is transferred to the candidate the service picked.
+async fn check_whole_connections(cx: &Ctx) -> u64 {
+    use crate::net::*;
+    let peer = start_peer().await;
+    let state = peer.state.clone();
+    let cands = vec![
+        WireTarget { id: "grpc-a".into(), host: Some("10.3.0.1".into()), port: 25565, meta: vec![("k".into(), "v".into())] },
+        WireTarget { id: "grpc-b".into(), host: Some("2001:db8::b".into()), port: 25570, meta: vec![("players".into(), "7".into()), ("ü".into(), "😀".into())] },
+    ];
+    {
+        let mut st = state.lock().unwrap();
+        st.discovery_reply = cands.iter().map(to_proto).collect();
+        st.select_reply = Some(Reply::Echo(1));
+    }
+    let a = std::sync::Arc::new(NetAdapters::new());
+    let port = free_port();
+    let addr: SocketAddr = format!("[::1]:{port}").parse().unwrap();
+    let stop = tokio_util::sync::CancellationToken::new();
+    let mut listener = passage_protocol::listener::Listener::new(a.clone(), std::sync::Arc::new(peer.disc), a.clone(), std::sync::Arc::new(peer.strat), a.clone(), std::sync::Arc::new(passage_adapters::FixedLocalizationAdapter::default()))
+        .with_proxy_protocol(Some(passage_protocol::listener::ParseConfig { include_tlvs: false, allow_v1: true, allow_v2: true }))
+        .with_connection_timeout(std::time::Duration::from_secs(20));
+    let stop2 = stop.clone();
+    let done = tokio::task::spawn_local(async move { listener.listen(addr, stop2).await.map_err(|e| e.to_string()) });
+    let mut up = false;
+    for _ in 0..400 {
+        if tokio::net::TcpStream::connect(addr).await.is_ok() {
+            up = true;
+            break;
+        }
+        if done.is_finished() {
+            break;
+        }
+        tokio::time::sleep(std::time::Duration::from_millis(5)).await;
+    }
+    if !up {
+        // no IPv6 loopback in this sandbox: nothing to judge
+        cx.rep.assume("whole connections through the gRPC adapters were skipped: the listener could not be bound to [::1]");
+        return 0;
+    }
+    let mut n = 0;
+    for (ver, src) in [("v1", "203.0.113.7:41000"), ("v1", "[2001:db8::7]:41001"), ("v1", "[::ffff:203.0.113.7]:41002"), ("v2", "[::ffff:10.0.0.1]:41003"), ("v2", "198.51.100.9:41004"), ("v2", "[::ffff:0:1]:41005")] {
+        n += 1;
+        let src: SocketAddr = src.parse().unwrap();
+        let replay = json!({"direction": "whole-connection", "announced": src.to_string(), "header": ver});
+        let Ok(mut c) = McClient::connect(addr, None).await else { continue };
+        let hdr = match (ver, src.is_ipv4()) {
+            ("v1", true) => format!("PROXY TCP4 {} 127.0.0.1 {} {port}\r\n", src.ip(), src.port()).into_bytes(),
+            ("v1", false) => format!("PROXY TCP6 {} ::1 {} {port}\r\n", src.ip(), src.port()).into_bytes(),
+            (_, true) => proxy_v2(src, format!("127.0.0.1:{port}").parse().unwrap()),
+            _ => proxy_v2(src, addr),
+        };
+        let _ = c.send_raw(&hdr).await;
+        state.lock().unwrap().last_select = None;
+        let p = LoginParams { host: "grpc.example.net".into(), name: "GrpcPlayer".into(), wait: std::time::Duration::from_secs(3), ..Default::default() };
+        let mut out = LoginOutcome { packets: vec![], stage: Stage::Connected, error: None };
+        c.login(&p, Stage::Connected, Stage::Transferred, &mut out).await;
+        cx.rpcs.fetch_add(2, Ordering::Relaxed);
+        let req = state.lock().unwrap().last_select.clone();
+        let Some(req) = req else {
+            bad(cx, "connection:select-request-not-sent".into(), format!("announced {src}: stage {:?}, error {:?}", out.stage, out.error), replay, 5);
+            continue;
+        };
+        let ca_ok = req.client_address.as_ref().is_some_and(|a| a.hostname.parse::<IpAddr>().ok() == Some(src.ip()) && a.port == src.port() as u32);
+        let sa_ok = req.server_address.as_ref().is_some_and(|a| a.hostname == "grpc.example.net" && a.port == 25565);
+        if !ca_ok || !sa_ok {
+            bad(cx, "connection:select-addresses-altered".into(), format!("a player announced as {src} (PROXY {ver}) who connected to grpc.example.net:25565 reached the strategy service as client {:?}, server {:?}", req.client_address, req.server_address), replay.clone(), 5);
+        }
+        let seen: Vec<(String, Option<String>, u32)> = req.targets.iter().map(|t| (t.identifier.clone(), t.address.as_ref().map(|a| a.hostname.clone()), t.address.as_ref().map(|a| a.port).unwrap_or(0))).collect();
+        let want: Vec<(String, Option<String>, u32)> = cands.iter().map(|t| (t.id.clone(), t.host.clone(), t.port)).collect();
+        let same = seen.len() == want.len() && seen.iter().zip(&want).all(|(s, w)| s.0 == w.0 && s.2 == w.2 && s.1.as_ref().and_then(|h| h.parse::<IpAddr>().ok()) == w.1.as_ref().and_then(|h| h.parse::<IpAddr>().ok()));
+        if !same || req.username != "GrpcPlayer" {
+            bad(cx, "connection:select-candidate-altered".into(), format!("discovery answered {want:?}; the strategy service was sent {seen:?} for player {:?}", req.username), replay.clone(), 5);
+        }
+        let went = out.packets.iter().find_map(|p| if let common::refs::codec::Pkt::Transfer { host, port } = p { Some((host.clone(), *port)) } else { None });
+        if went.as_ref().map(|(h, p)| (h.parse::<IpAddr>().ok(), *p)) != Some(("2001:db8::b".parse().ok(), 25570)) {
+            bad(cx, "connection:select-choice-altered".into(), format!("the service picked grpc-b ([2001:db8::b]:25570); the player announced as {src} was sent {went:?} (stage {:?}, error {:?})", out.stage, out.error), replay, 5);
+        } else {
+            cx.ok_targets.fetch_add(1, Ordering::Relaxed);
+        }
+    }
+    stop.cancel();
+    let _ = tokio::time::timeout(std::time::Duration::from_secs(2), done).await;
+    n
+}
+
 pub fn run(cli: Cli) -> ! {
     let rep = Report::new("C19", cli.tier, "exploration");
     let thorough = cli.tier.thorough();
@@ -501,6 +662,12 @@ pub fn run(cli: Cli) -> ! {
         });
     });
 
+    let whole = crate::net::run_local(async {
+        check_overlapping_discovery(&cx).await;
+        check_whole_connections(&cx).await
+    });
+    cx.rep.set("whole_connections_through_the_listener", json!(whole));
+    cx.rep.set("orders_of_overlapping_discovery_answers", json!(8));
     let rpcs = cx.rpcs.load(Ordering::Relaxed);
     cx.rep.require("targets that crossed the boundary", cx.ok_targets.load(Ordering::Relaxed), 50);
     cx.rep.require("rejected replies", cx.rejected.load(Ordering::Relaxed), 20);
